@@ -19,6 +19,7 @@ import FgaVerif.Model.Conform
 import FgaVerif.Gen.Grammar
 import FgaVerif.Model.LexSim
 import FgaVerif.Model.GParse
+import FgaVerif.Model.GenSentence
 /-! Line-protocol driver: one S-expression operation per input line, one canonical result per
     output line. Runs the executable model definitions only (no proofs are imported). -/
 namespace FgaVerif.Driver
@@ -400,6 +401,8 @@ def step (line : String) : String :=
   | some (.list [.atom "modpath", .str e]) => opModPath e
   | some (.list [.atom "modfile", sn, cn]) => opModFile sn cn
   | some (.list [.atom "lex", .str text]) => opLex text
+  | some (.list [.atom "gen-sentence", .atom seed, .atom depth]) =>
+    s!"(sentence {Sexp.quote (GenSentence.sentence Gen.Grammar.rules Gen.Atn.goLexerSymbolic Gen.Atn.goLexerLiteral "main" seed.toNat! depth.toNat!)})"
   | some (.list [.atom "parse", .list toks]) => opParse toks
   | some (.list [.atom "lexparse", .str text]) => opLexParse text
   | some (.list [.atom "dsl2model-full", .str text]) => opDsl2ModelFull text
